@@ -7,6 +7,7 @@ import (
 	"go/types"
 	"os"
 	"path/filepath"
+	"regexp"
 	"sort"
 	"strings"
 
@@ -52,6 +53,7 @@ type World struct {
 	opqSig          map[string]string
 	opaques         map[string]*opaqueDef
 	mapKeyTypes     map[string]types.Type
+	keyTypes        map[string]types.Type
 }
 
 func shortPkg(path string) string {
@@ -326,8 +328,12 @@ func q(s string) string { return "|" + s + "|" }
 
 // typeName gives a stable printable name for a Go type (type params printed by name)
 func typeName(t types.Type) string {
-	return types.TypeString(t, func(p *types.Package) string { return shortPkg(p.Path()) })
+	s := types.TypeString(t, func(p *types.Package) string { return shortPkg(p.Path()) })
+	// an uninstantiated generic type prints its type parameter declarations ("node[T any]"): same name as inside generic bodies
+	return typeParamDecl.ReplaceAllString(s, "$1")
 }
+
+var typeParamDecl = regexp.MustCompile(`(\b[A-Z]\w*) (any|comparable)\b`)
 
 func origin(t types.Type) types.Type {
 	switch t := t.(type) {
@@ -451,6 +457,10 @@ func (w *World) fieldKey(structT types.Type, idx int) (string, string) {
 	key := "F:" + namedName(structT) + "." + st.Field(idx).Name()
 	srt := w.sortOf(st.Field(idx).Type())
 	w.heapSort[key] = fmt.Sprintf("(Array Int %s)", srt)
+	if w.keyTypes == nil {
+		w.keyTypes = map[string]types.Type{}
+	}
+	w.keyTypes[key] = st.Field(idx).Type()
 	return key, srt
 }
 
